@@ -121,6 +121,7 @@ def make(depth, inside):
     async def a_level(k):
         if k == 0:
             if inside: out["st"] = stackscope.extract(trio.lowlevel.current_task())
+            out["reached"] = True
             await trio.sleep_forever()
         else:
             sync_level(k)
@@ -132,7 +133,8 @@ def make(depth, inside):
     async def main():
         async with trio.open_nursery() as n:
             n.start_soon(root)
-            for _ in range(5): await trio.sleep(0.01)
+            while "reached" not in out: await trio.sleep(0.001)      # condition, not clock
+            await trio.sleep(0); await trio.sleep(0)
             (task,) = n.child_tasks
             if not inside: out["st"] = stackscope.extract(task)
             n.cancel_scope.cancel()
